@@ -66,7 +66,7 @@ ApplyBlock(b, crash) ==
 \* consensus.State.pruneBlocks: PruneStates(base, retainHeight), retainHeight <= store height
 Prune(to) ==
   /\ st.h > 0 /\ base < to /\ to <= st.h
-  /\ LET r == PruneStates(db, base, to) IN
+  /\ LET r == ConsPrune(db, base, to) IN
      /\ r.err = "none"
      /\ db' = r.db
   /\ base' = to
@@ -89,6 +89,6 @@ TruthWellFormed == \A h \in DOMAIN truth : WellFormed(truth[h].vals) /\ NoClip(t
 \* the proposer stored with a set is the member its last rotation chose
 ProposerIsMember == \A h \in DOMAIN truth : \E i \in DOMAIN truth[h].vals : truth[h].vals[i] = truth[h].prop
 \* PruneStates never fails on a reachable store
-PruneNeverFails == \A to \in (base + 1)..(st.h) : st.h > 0 => PruneStates(db, base, to).err = "none"
+PruneNeverFails == \A to \in (base + 1)..(st.h) : st.h > 0 => ConsPrune(db, base, to).err = "none"
 View == <<st, db, truth, base>>
 =============================================================================
